@@ -12,7 +12,7 @@ from .common import GENCLS, find_loops, fmt_facts, gen_state, mentions, new_effe
 from .visitor_model import (STACK, VCLS, child_selection, elem_obj, parent_obj, possible_parents, stmt_classes, visitor_state)
 
 DECL = {"FuncDef", "Decorator", "OverloadedFuncDef", "ClassDef"}
-REF_CHILDREN = {"Module": DECL, "Class": DECL | {"AssignmentStmt"}, "Constructor": {"AssignmentStmt"}}
+REF_CHILDREN = {"Module": DECL, "Class": DECL | {"AssignmentStmt"}, "Constructor": {"AssignmentStmt"}, "Enum": {"AssignmentStmt"}}
 
 
 def callbacks_for(ctx: Ctx, cls: str) -> tuple[AV, AV] | None:
@@ -118,6 +118,14 @@ def check(ctx: Ctx, col: Collector, tier: str) -> None:
             else:
                 col.bad("C03.CHILD-KINDS", key, repo.loc(WALKER, wfi.node), f"{cont} level selects {sorted(sel[cont])}",
                         f"at {cont.lower()} level the walker does not descend into {k} statements: declarations of that form are silently dropped")
+    # methods, properties and nested classes of an enum are public declarations too
+    dropped = sorted(DECL - sel["Enum"])
+    key = f"{WALKER}::ASTWalker.__walk::Enum::methods-and-classes"
+    if dropped:
+        col.bad("C03.CHILD-KINDS", key, repo.loc(WALKER, wfi.node), f"enum level selects {sorted(sel['Enum'])}; not descended: {dropped}",
+                "methods, properties and nested classes of an Enum are not visited and do not appear in the stubs (only the members do)")
+    else:
+        col.ok("C03.CHILD-KINDS", key, repo.loc(WALKER, wfi.node), "enum bodies are searched for definitions")
     compound = [k for k in stmt_classes(ctx) if ctx.lib.block_fields(k) and k not in ("FuncDef", "ClassDef", "Decorator", "OverloadedFuncDef", "Block")]
     for cont in ("Module", "Class"):
         missing = [k for k in compound if k not in sel[cont]]
